@@ -40,6 +40,10 @@ pub struct Violation {
     pub count: u64,
     /// a non-terminating case cannot be re-executed for confirmation (the re-execution would hang too)
     pub no_gate: bool,
+    /// confirmed only by the concurrent stage of the gate (replay executes it on several threads at once)
+    pub concurrent: bool,
+    /// did not reproduce in any stage of the gate
+    pub unstable: bool,
 }
 
 pub struct Ctx {
@@ -212,13 +216,15 @@ impl Ctx {
             prefix: PREFIX.with(|p| p.borrow().clone()),
             count: 0,
             no_gate: false,
+            concurrent: false,
+            unstable: false,
         });
         e.count += 1;
     }
     /// a case that did not finish within the stall limit (recorded by the stall monitor)
     pub fn violation_timeout(&self, site: &str, class: &str, detail: impl Into<String>, case: Value, prefix: Vec<Value>) {
         let mut v = self.violations.lock().unwrap();
-        let e = v.entry((site.to_string(), class.to_string())).or_insert_with(|| Violation { site: site.to_string(), class: class.to_string(), detail: detail.into(), case, prefix, count: 0, no_gate: true });
+        let e = v.entry((site.to_string(), class.to_string())).or_insert_with(|| Violation { site: site.to_string(), class: class.to_string(), detail: detail.into(), case, prefix, count: 0, no_gate: true, concurrent: false, unstable: false });
         e.count += 1;
     }
     pub fn violations(&self) -> Vec<Violation> {
@@ -286,6 +292,9 @@ pub fn finish(ctx: &Arc<Ctx>, replay: Option<ReplayFn>) -> i32 {
     // determinism gate: a violation must reproduce from its replay record, executed on a fresh
     // thread: first the case alone, then (hidden state carried between calls) after its recorded prefix
     let mut unlisted = unlisted;
+    let mut concurrent_budget = 16usize;
+    let mut unstable = 0usize;
+    let mut unstable_msgs: Vec<String> = Vec::new();
     if let Some(rf) = replay {
         for v in unlisted.iter_mut() {
             if v.no_gate {
@@ -301,13 +310,34 @@ pub fn finish(ctx: &Arc<Ctx>, replay: Option<ReplayFn>) -> i32 {
                 v.detail = format!("HISTORY-DEPENDENT (passes in isolation, fails after the {} recorded earlier calls on the same thread): {}", v.prefix.len(), v.detail);
                 continue;
             }
-            ctx.machinery_error(format!(
+            // third stage: the same records on several threads at once (budget: 16 such violations, 5 s each)
+            if concurrent_budget > 0 {
+                concurrent_budget -= 1;
+                let conc = replay_concurrently(ctx, rf, &v.prefix, &v.case, &v.site, &v.class, 8, std::time::Duration::from_secs(5));
+                if !conc.is_empty() {
+                    v.detail = format!("CONCURRENCY-DEPENDENT (passes in every sequential replay, fails when 8 threads execute the same calls at the same time - shared mutable state inside the library): {}", v.detail);
+                    v.concurrent = true;
+                    continue;
+                }
+            }
+            unstable += 1;
+            v.unstable = true;
+            unstable_msgs.push(format!(
                 "violation {} / {} did not reproduce from its replay record, alone or after its {}-case prefix (got {:?})",
                 v.site,
                 v.class,
                 v.prefix.len(),
                 with_prefix.iter().map(|w| (&w.site, &w.class)).collect::<Vec<_>>()
             ));
+        }
+    }
+    // observations that no stage of the gate could reproduce: a machinery error if nothing else was confirmed (the
+    // verdict would rest on them alone); otherwise they are set aside and listed in the evidence
+    let unstable_obs: Vec<Value> = unlisted.iter().filter(|v| v.unstable).map(|v| json!({"site": v.site, "class": v.class, "count": v.count})).collect();
+    unlisted.retain(|v| !v.unstable);
+    if unstable > 0 && unlisted.is_empty() {
+        for m in unstable_msgs {
+            ctx.machinery_error(m);
         }
     }
     let wall = ctx.start.elapsed().as_secs_f64();
@@ -339,6 +369,7 @@ pub fn finish(ctx: &Arc<Ctx>, replay: Option<ReplayFn>) -> i32 {
     );
     let merrs = ctx.machinery_errors.lock().unwrap().clone();
     coverage.insert("machinery_errors".into(), json!(merrs));
+    coverage.insert("observations_not_reproduced_by_any_gate_stage".into(), json!(unstable_obs));
     let ev = json!({
         "property_id": ctx.prop,
         "tier": ctx.tier.name(),
@@ -394,7 +425,7 @@ pub fn finish(ctx: &Arc<Ctx>, replay: Option<ReplayFn>) -> i32 {
     let _ = std::fs::create_dir_all(&dir);
     for (i, v) in unlisted.iter().enumerate() {
         let path = format!("{}/{}-{}-{}.json", dir, ctx.prop, ctx.tier.name(), i);
-        let rec = json!({"property": ctx.prop, "site": v.site, "class": v.class, "detail": v.detail, "count": v.count, "seed": ctx.seed, "case": v.case, "prefix": v.prefix});
+        let rec = json!({"property": ctx.prop, "site": v.site, "class": v.class, "detail": v.detail, "count": v.count, "seed": ctx.seed, "case": v.case, "prefix": v.prefix, "concurrent": v.concurrent});
         let _ = std::fs::write(&path, serde_json::to_string_pretty(&rec).unwrap());
         println!("VIOLATION property={} replay={}", ctx.prop, path);
         println!("  site={} class={} cases={} detail={}", v.site, v.class, v.count, truncate(&v.detail, 300));
@@ -418,6 +449,46 @@ pub fn replay_on_fresh_thread(ctx: &Arc<Ctx>, rf: ReplayFn, prefix: &[Value], ca
         .join()
         .unwrap_or_default()
     })
+}
+
+/// Third stage of the determinism gate: `prefix` + `case` executed in a loop on `threads` threads AT THE SAME TIME.
+/// A failure that needs another thread inside the library at the same moment (module-scope scratch state, a racy
+/// process-wide cache) cannot be reproduced by any sequential schedule; this stage re-creates the condition under
+/// which it was observed. It confirms an observed failure, it is never used to conclude that a property holds.
+/// Returns the matching violations of the first failing iteration.
+pub fn replay_concurrently(ctx: &Arc<Ctx>, rf: ReplayFn, prefix: &[Value], case: &Value, site: &str, class: &str, threads: usize, budget: std::time::Duration) -> Vec<Violation> {
+    let (prop, tier, seed) = (ctx.prop, ctx.tier, ctx.seed);
+    let stop = std::sync::atomic::AtomicBool::new(false);
+    let found: Mutex<Vec<Violation>> = Mutex::new(Vec::new());
+    let start = Instant::now();
+    // only the tail of the prefix: enough to recreate related-input neighbourhoods, short enough to iterate often
+    let tail = &prefix[prefix.len().saturating_sub(8)..];
+    std::thread::scope(|s| {
+        for _ in 0..threads {
+            s.spawn(|| {
+                let mut it = 0usize;
+                while !stop.load(Ordering::Relaxed) && start.elapsed() < budget && it < 2000 {
+                    it += 1;
+                    let scratch = Ctx::new(prop, tier, seed, true);
+                    for p in tail {
+                        let _ = guard(|| rf(&scratch, p));
+                    }
+                    let judged = Ctx::new(prop, tier, seed, true);
+                    let _ = guard(|| rf(&judged, case));
+                    let vs: Vec<Violation> = judged.violations().into_iter().filter(|w| w.site == site && w.class == class).collect();
+                    if !vs.is_empty() {
+                        stop.store(true, Ordering::Relaxed);
+                        let mut f = found.lock().unwrap();
+                        if f.is_empty() {
+                            *f = vs;
+                        }
+                        return;
+                    }
+                }
+            });
+        }
+    });
+    found.into_inner().unwrap()
 }
 
 /// cases currently executing: thread -> (start, replay record, prefix length) — read by the stall monitor
